@@ -332,4 +332,31 @@ impl LfuT {
 //@end
 }
 
+
+// ---- Lfu::update_frequencies (TinyLFU aging): every access is counted in the sketch and in the sample counter; when the
+// sample counter reaches the decay period ALL counters are halved -- the sample counter too (it restarts at half the
+// period, not at 0), so agings come after W, 1.5 W, 2 W, .. accesses
+pub struct CountMinKey(pub u64);
+pub struct SketchT { pub updates: Ghost<Seq<u64>>, pub halvings: Ghost<nat> }
+impl SketchT {
+    #[verifier::external_body]
+    pub fn update(&mut self, k: CountMinKey) ensures final(self).updates@ == old(self).updates@.push(k.0), final(self).halvings == old(self).halvings { unimplemented!() }
+    #[verifier::external_body]
+    pub fn halve(&mut self) ensures final(self).halvings@ == old(self).halvings@ + 1, final(self).updates == old(self).updates { unimplemented!() }
+}
+pub struct LfuFreqT { pub frequencies: SketchT, pub step: usize, pub decay: usize }
+impl LfuFreqT {
+//@fn foyer-memory/src/eviction/lfu.rs :: impl~^impl<K, V, P> Lfu<K, V, P>/fn update_frequencies
+//@spec
+        requires old(self).step < usize::MAX,
+        ensures
+            final(self).decay == old(self).decay,
+            final(self).frequencies.updates@ == old(self).frequencies.updates@.push(hash), // @label every_access_is_counted_once_in_the_sketch
+            old(self).step + 1 < old(self).decay ==> final(self).step == old(self).step + 1 && final(self).frequencies.halvings == old(self).frequencies.halvings, // @label no_aging_before_the_decay_period_is_reached
+            old(self).step + 1 >= old(self).decay ==> final(self).step == (old(self).step + 1) / 2 && final(self).frequencies.halvings@ == old(self).frequencies.halvings@ + 1, // @label aging_halves_the_counters_and_the_sample_counter_together
+//@before /self\.step >>= 1;/
+            proof { let x = self.step; assert(x >> 1 == x / 2) by(bit_vector); }
+//@end
+}
+
 } // verus!
